@@ -4,7 +4,7 @@
 # Developer tool; never part of a registered check.
 p=$1; n=${2:-6}; round=${3:-5}
 cd "$(dirname "$0")/.." || exit 2
-src=/tmp/seedwt/$p; dst=seeded/$p-$n
+src=${SEEDWT:-/tmp/seedwt}/$p; dst=seeded/$p-$n
 for f in seed_patch.diff seed_demo.py seed_meta.json; do [ -s $src/$f ] || { echo "$p: $f missing"; exit 2; }; done
 mkdir -p $dst
 cp $src/seed_patch.diff $dst/patch.diff; cp $src/seed_demo.py $dst/demo.py
